@@ -256,7 +256,12 @@ def scenario(run, tape, clock, store):
                 switches += 1
             last = c
             try:
+                t_before = tuner.hang[1].now if tuner.hang is not None else None
                 comp = next(gens[c])
+                if tuner.hang is not None and comp.recording_id == tuner.hang[0]:
+                    took = tuner.hang[1].now - t_before
+                    run.check(took <= 5 + 3.0, 'verdict', 'hung-replay-reported-late',
+                              lambda: 'the replay that hangs was given up on after %.1f s of simulated time; the configured timeout is 5 s' % took)
                 results[c].append(comp)
                 order.append((c, comp.recording_id))
             except StopIteration:
